@@ -193,6 +193,7 @@ type CtxObj struct {
 	cause    Value
 	parent   *CtxObj
 	children []*CtxObj
+	key, val Value // context.WithValue
 }
 
 func (in *Interp) canceledErr() Value {
@@ -251,6 +252,11 @@ func (in *Interp) installCtxStubs() {
 		}}
 		return TupleV{[]Value{in.ctxVal(c), cancel}}
 	}
+	S["context.WithValue"] = func(in *Interp, fn *ssa.Function, a []Value) Value {
+		par := a[0].(IfaceV).v.(*CtxObj)
+		// shares the parent's cancellation state
+		return in.ctxVal(&CtxObj{done: par.done, err: par.err, cause: par.cause, parent: par, key: a[1], val: a[2]})
+	}
 	S["context.Cause"] = func(in *Interp, fn *ssa.Function, a []Value) Value {
 		return a[0].(IfaceV).v.(*CtxObj).cause
 	}
@@ -261,7 +267,19 @@ func (in *Interp) ctxMethod(c *CtxObj, name string, args []Value) Value {
 	case "Done":
 		return ChanV{c.done}
 	case "Err":
+		for p := c; p != nil; p = p.parent {
+			if p.key == nil {
+				return p.err
+			}
+		}
 		return c.err
+	case "Value":
+		for p := c; p != nil; p = p.parent {
+			if p.key != nil && in.branch(in.valEq(p.key, args[0])) {
+				return p.val
+			}
+		}
+		return IfaceV{}
 	}
 	in.abort("unsupported", "context method "+name)
 	return nil
